@@ -112,6 +112,7 @@ type PathResult struct {
 	CrossN       int
 	Known        map[string]*Violation
 	SampleInputs map[string]interface{}
+	SyncTrace    []string
 	Funcs        []*ssa.Function
 	Inputs       int
 	Trace        []string
@@ -338,7 +339,7 @@ func (p *Program) RunPath(fn *ssa.Function, prefix []Dec, solver *smt.Solver, op
 		globals: map[*ssa.Global]*Value{}, mutexW: map[*Value][]*G{}, wgCount: map[*Value]int64{}, wgW: map[*Value][]*G{},
 		mapOrderSym: map[string]bool{}, Env: NewWorld(), Funcs: map[*ssa.Function]bool{},
 		userData: map[string]Value{}, extTypeTab: map[string]types.Type{}, Fixed: opts.Fixed, onPending: onPending,
-		knownW: map[string]*Violation{}, decided: map[*sym.Term]bool{}, CrossKind: opts.CrossSolver, CrossStats: crossStats,
+		knownW: map[string]*Violation{}, decided: map[*sym.Term]bool{}, traceChans: map[*Chan]bool{}, traceMutex: map[*Value]bool{}, mutexNames: map[*Value]string{}, CrossKind: opts.CrossSolver, CrossStats: crossStats,
 	}
 	res = &PathResult{Prefix: prefix}
 	for k, v := range opts.Params {
@@ -380,6 +381,7 @@ func (p *Program) RunPath(fn *ssa.Function, prefix []Dec, solver *smt.Solver, op
 		}
 	}
 	res.Known = m.knownW
+	res.SyncTrace = m.SyncTrace
 	res.CrossN = m.CrossN
 	m.cleanup()
 	if !solver.Dead() {
